@@ -7,16 +7,33 @@ From Flussab Require Import Base Reader ListN Writer Prog Text TextSpec ProgProo
    nothing else about the view that a later operation can observe has changed *)
 Definition peeked_to (v v' : view) (m : N) : Prop :=
   vS v' = vS v /\ vfail v' = vfail v /\ vcur v' = vcur v /\ vmark v' = vmark v /\ vtaken v' = vtaken v /\
-  vreq v' = N.max (vreq v) m.
+  vreq v' = N.max (vreq v) m /\
+  (* the end of the input has been seen iff some peek went beyond it *)
+  vknown v' = vknown v || (nlen (vS v) <? m).
+
+Lemma vpeek_none_iff v k : vpeek v k = None <-> nlen (vS v) < vcur v + k + 1.
+Proof.
+  unfold vpeek, nnth, nlen. rewrite nth_error_None. lia.
+Qed.
 
 Lemma peeked_after_peek v k : peeked_to v (after_peek v k) (vcur v + k + 1).
-Proof. repeat split. Qed.
+Proof.
+  repeat split. cbn [after_peek vknown vS]. destruct (vpeek v k) eqn:E.
+  - assert (H : ~ nlen (vS v) < vcur v + k + 1) by (rewrite <- vpeek_none_iff; congruence).
+    assert ((nlen (vS v) <? vcur v + k + 1) = false) as -> by (apply N.ltb_ge; lia). rewrite orb_false_r. reflexivity.
+  - apply vpeek_none_iff in E. apply N.ltb_lt in E. rewrite E. rewrite orb_true_r. reflexivity.
+Qed.
 
 Lemma peeked_trans v v1 v2 m1 m2 :
   peeked_to v v1 m1 -> peeked_to v1 v2 m2 -> peeked_to v v2 (N.max m1 m2).
 Proof.
-  intros (a1 & a2 & a3 & a4 & a5 & a6) (b1 & b2 & b3 & b4 & b5 & b6).
-  repeat split; try congruence. rewrite b6, a6. lia.
+  intros (a1 & a2 & a3 & a4 & a5 & a6 & a7) (b1 & b2 & b3 & b4 & b5 & b6 & b7).
+  repeat split; try congruence.
+  - rewrite b6, a6. lia.
+  - rewrite b7, a7, a1. rewrite <- orb_assoc. f_equal.
+    destruct (nlen (vS v) <? m1) eqn:E1; destruct (nlen (vS v) <? m2) eqn:E2;
+      destruct (nlen (vS v) <? N.max m1 m2) eqn:E3; try reflexivity;
+      rewrite ?N.ltb_lt, ?N.ltb_ge in *; lia.
 Qed.
 
 Lemma peeked_weaken v v' m m' : peeked_to v v' m -> m = m' -> peeked_to v v' m'.
@@ -128,7 +145,8 @@ Lemma fixed_from_spec pat : forall off i v,
 Proof.
   induction pat as [|p ps IH]; intros off i v.
   - cbn [fixed_from srun common_prefix]. change (nlen (@nil byte)) with 0. cbn [N.eqb]. rewrite N.add_0_r.
-    exists v. split; [reflexivity|]. repeat split. lia.
+    exists v. split; [reflexivity|]. repeat split; try lia.
+    destruct (nlen (vS v) <? 0) eqn:E0; [apply N.ltb_lt in E0; lia|rewrite orb_false_r; reflexivity].
   - cbn [fixed_from srun]. rewrite vpeek_rest.
     pose proof (peeked_after_peek v (off + i)) as Hp.
     assert (Hlen : nlen (p :: ps) = 1 + nlen ps) by (unfold nlen; cbn [length]; lia).
